@@ -160,7 +160,8 @@ def run(c: Check):
         for hist, ans in zip(x["histories"], r0["answers"]):
             if ans and ans[0].startswith("build-exc"):
                 continue
-            coq_cases.append(dict(export=r0["export"], ops=hist, answers=ans, desc=x["desc"]))
+            coq_cases.append(dict(export=r0["export"], ops=hist, answers=ans, desc=x["desc"],
+                                  export_after=(r0.get("export_after") if hist is x["histories"][0] else None)))
     c.samples = [dict(desc=x["desc"], history=x["histories"][1], answers=per_seed[seeds[0]][id(x)]["answers"][1])
                  for x in cases[:2]]
     bad = c.corr_shards("corr", HEADER, coq_cases,
@@ -183,6 +184,15 @@ def run(c: Check):
             c.violation("C01:cache-state-unsound" + identgen.selfmark_suffix(inv_cases[i]["desc"], pairs, inv_cases[i]["export"]["nodes"]),
                         "the state of the built graph breaks the invariant of the cache theorems: " + identgen.diag_text(pairs),
                         dict(desc=inv_cases[i]["desc"], histories=[[]], diagnosis=pairs))
+    # ... and on the state the first history of each graph ENDS in (identifiers cached by the requests themselves)
+    fin_cases = [k for k in inv_cases if k.get("export_after") and identgen.in_model(k["export_after"])]
+    diags2 = c.nat_shards("invfinal", HEADER, fin_cases, lambda k: identgen.g_icase(k["export_after"], [], []), "diag_icase", shard=60)
+    for i, diag in enumerate(diags2):
+        if diag:
+            pairs = list(zip(diag[0::2], diag[1::2]))
+            c.violation("C01:cache-state-unsound-after-requests" + identgen.selfmark_suffix(fin_cases[i]["desc"], pairs, fin_cases[i]["export_after"]["nodes"]),
+                        "the state a request history ends in breaks the invariant of the cache theorems: " + identgen.diag_text(pairs),
+                        dict(desc=fin_cases[i]["desc"], histories=[fin_cases[i]["ops"]], diagnosis=pairs))
     c.level_assumptions = [
         "SHA-256 is a parameter H of every theorem; the Gallina SHA-256 used to run the model is validated against hashlib by the correspondence itself",
         "CPython's struct.pack, str.encode('utf-8'), sorted behave as documented; class tables (flags, defaults) are read off the real ObjectType/Argument objects",
